@@ -226,9 +226,14 @@ func normLines(l []string) string {
 	return atoms(l)
 }
 
+// c05depFirst: the package is first loaded as a dependency of another requested package and only
+// then requested itself (its comments must still be delivered)
+var c05depFirst = false
+
 func c05(g *Gen) {
 	n := g.N(150, 4000)
 	for i := 0; i < n; i++ {
+		c05depFirst = i%4 == 3
 		c := &c05gen{g: g, cls: map[string]bool{}}
 		pkg := "cm"
 		path := fmt.Sprintf("ex.test/cm%d", i)
@@ -257,6 +262,9 @@ func c05(g *Gen) {
 		}
 		p := u.Package(path)
 		cls := []string{"layout"}
+		if c05depFirst {
+			cls = append(cls, "dependency-first-then-requested")
+		}
 		for k := range c.cls {
 			cls = append(cls, k)
 		}
